@@ -330,6 +330,7 @@ class CalSim:
         self.n_model = 0
         self.n_loss = 0
         self.n_sample = 0
+        self.n_update = 0
         self.op_results = []
         self.cal = None
         self.folder = None
@@ -493,6 +494,22 @@ class CalSim:
             return out
         return compute_loss
 
+    def _wrap_update(self, orig, cls):
+        sim = self
+
+        def update(self_s, *a, **kw):
+            if sim.cal is None or self_s is not sim.cal.scheduler:
+                return orig(self_s, *a, **kw)
+            idx = sim.n_update
+            sim.n_update += 1
+            f = sim.fault_idx.get(("update", idx))
+            if f is not None:
+                sim.fired.append(f)
+                sim.stats["raise@scheduler-update"] += 1
+                raise InjectedFault(f"scheduler.update call {idx}")
+            return orig(self_s, *a, **kw)
+        return update
+
     def _wrap_next(self, orig, cls):
         sim = self
 
@@ -556,6 +573,7 @@ class CalSim:
         wrap_methods(sm, BaseSampler, "sample", self._wrap_sample)
         wrap_methods(sm, BaseLoss, "compute_loss", self._wrap_loss)
         wrap_methods(sm, BaseScheduler, "get_next_sampler", self._wrap_next)
+        wrap_methods(sm, BaseScheduler, "update", self._wrap_update)
         wrap_methods(sm, Agent, "policy", self._wrap_policy)
         wrap_methods(sm, Agent, "learn", self._wrap_learn)
         if self.env.get("trace_lines"):
@@ -737,6 +755,14 @@ class CalSim:
             _, n, k = op
             key = ("model", self.n_model + k)
             self.fault_idx[key] = {"kind": "raise", "seam": "model", "at": self.n_model + k}
+            r = self.do_calibrate(n)
+            self.fault_idx.pop(key, None)
+            return r
+        if kind == "calibrate_fault_update":
+            # the scheduler's update hook raises at its k-th call from now on (a user-defined scheduler bug, an interrupt)
+            _, n, k = op
+            key = ("update", self.n_update + k)
+            self.fault_idx[key] = {"kind": "raise", "seam": "update", "at": self.n_update + k}
             r = self.do_calibrate(n)
             self.fault_idx.pop(key, None)
             return r
